@@ -171,8 +171,8 @@ pub fn remove_rejected(is_row: bool, c: usize, r: usize) {
 }
 
 /// Copy elements with symbolic contents (cheap): values of the drain and of the remainder.
-pub fn remove_u8(is_row: bool, c: usize, r: usize) {
-    let cells = nd::bytes::<16>();
+pub fn remove_u8_b<const B: usize>(is_row: bool, c: usize, r: usize) {
+    let cells = nd::bytes::<B>();
     let mut t = owned_u8(c, r, &cells, false);
     let dim = if is_row { r } else { c };
     let line = if is_row { c } else { r };
@@ -198,6 +198,10 @@ pub fn remove_u8(is_row: bool, c: usize, r: usize) {
         assert!(t.size() == (0, 0), "ORACLE: removing the last line must leave (0,0)");
     }
     end_reached!();
+}
+
+pub fn remove_u8(is_row: bool, c: usize, r: usize) {
+    remove_u8_b::<16>(is_row, c, r)
 }
 
 /// Zero-sized owning elements.
